@@ -44,6 +44,21 @@ var exitYield = map[string]map[string][]string{
 	"internal/sm2ec/sm2p256.go":     {"SM2P256Point": {"ScalarMult", "ScalarBaseMult", "SetBytes", "Bytes", "BytesX", "BytesCompressed", "SetGenerator"}},
 }
 
+// stmtYield lists files whose functions get a scheduling point before EVERY top-level statement: Go functions that
+// orchestrate a chain of assembly calls over temporaries. The stores of those calls are invisible to the race detector,
+// so a temporary hoisted to package scope there can only be seen through a wrong result, i.e. by pre-empting a thread
+// between two of the calls.
+var stmtYield = map[string]bool{
+	"internal/sm2ec/p256_asm_ord.go": true,
+}
+
+// stmtYieldFuncs: the same, for single functions of larger files (field inversion and square-root chains, the curve
+// polynomial of the on-curve check)
+var stmtYieldFuncs = map[string]map[string]bool{
+	"internal/sm2ec/sm2p256_asm.go": {"p256Sqrt": true, "p256Polynomial": true, "p256CheckOnCurve": true, "p256Inverse": true},
+	"internal/sm2ec/p256_asm.go":    {"p256Inverse": true, "p256Sqrt": true},
+}
+
 func recvType(fd *ast.FuncDecl) string {
 	if fd.Recv == nil || len(fd.Recv.List) == 0 {
 		return ""
@@ -153,9 +168,29 @@ func main() {
 					nSync++
 				}
 			}
-			doYield := yieldPkg[d] || yieldFile[rel]
+			doYield := yieldPkg[d] || yieldFile[rel] || stmtYield[rel]
+			stmtFiles := map[string]bool{}
 			_, hasExit := exitYield[rel]
 			inserted := 0
+			if stmtYield[rel] || stmtYieldFuncs[rel] != nil {
+				for _, decl := range f.Decls {
+					fd, ok := decl.(*ast.FuncDecl)
+					if !ok || fd.Body == nil || fd.Name.Name == "init" || len(fd.Body.List) < 2 {
+						continue
+					}
+					if !stmtYield[rel] && !stmtYieldFuncs[rel][fd.Name.Name] {
+						continue
+					}
+					stmtFiles[rel] = true
+					for _, st := range fd.Body.List[1:] {
+						if _, isDecl := st.(*ast.DeclStmt); isDecl {
+							continue
+						}
+						edits = append(edits, edit{fset.Position(st.Pos()).Offset, 0, "verifsyncY_.Yield();"})
+						nYield++
+					}
+				}
+			}
 			if doYield || hasExit {
 				for _, decl := range f.Decls {
 					fd, ok := decl.(*ast.FuncDecl)
